@@ -4411,14 +4411,18 @@ static Value eval_statement(ASTNode *stmt, Environment *env) {
         }
 
         case AST_BLOCK: {
+            /* A block is a scope: what it declares ends with it (the symbols
+             * are left behind like those of a match arm, not freed) */
+            int saved_symbol_count = env->symbol_count;
             Value result = create_void();
             for (int i = 0; i < stmt->as.block.count; i++) {
                 result = eval_statement(stmt->as.block.statements[i], env);
                 /* If statement returned a value, propagate it immediately */
                 if (result.is_return || result.is_break || result.is_continue) {
-                    return result;
+                    break;
                 }
             }
+            env->symbol_count = saved_symbol_count;
             return result;
         }
 
